@@ -216,12 +216,12 @@ def replay_file(path):
 def run(tier, seed):
     t0 = time.time()
     exe = core.build("rel")
-    n, mt = (1400, 400000) if tier == "quick" else (25000, 4000000)
+    n, mt = (1400, 400000) if tier == "quick" else (16000, 3000000)
     ev = make_eval(exe)
     st0, f0 = core.pmap_cases(ev, fixed_cases(tier))
     stats, fails = core.hyp_search(lambda: _enc.case_strategy(mt, boundary_weight=1), ev, n, seed)
     stats.merge(st0)
-    s2, f2 = core.hyp_search(multi_strategy, make_multi_eval(exe), 400 if tier == "quick" else 8000, seed + 3)
+    s2, f2 = core.hyp_search(multi_strategy, make_multi_eval(exe), 400 if tier == "quick" else 5000, seed + 3)
     stats.merge(s2)
     fails = fails + f2
     oc = core.conclude(PID, f0 + fails, replay_case)
